@@ -188,7 +188,23 @@ impl Phase for HostileWords {
     fn len(&self) -> u64 {
         self.n
     }
-    fn run(&mut self, _idx: u64, r: &mut Rng, out: &mut Out) {
+    fn run(&mut self, idx: u64, r: &mut Rng, out: &mut Out) {
+        if idx < 400 {
+            // what other languages read as an access path into a value: here a name (bound names of the probe contexts:
+            // an int, a float, a string, a 2-tuple, a function)
+            let var = ["a", "x", "b", "s", "f"][(idx % 5) as usize];
+            let suffixes = [".0", ".1", ".2", ".3", ".00", ".-1", ".18446744073709551616", ".1.0", ".2.0", "[0]", "[2]", "[-1]", "::0", ".len", ".", "..", ".0.", "?", "!", "'"];
+            let suffix = suffixes[((idx / 5) % 20) as usize];
+            let src = match idx / 100 {
+                0 => format!("{}{}", var, suffix),
+                1 => format!("{}{} + 1", var, suffix),
+                2 => format!("{}{} = 1", var, suffix),
+                _ => format!("f({}{})", var, suffix),
+            };
+            exercise(out, &src, &self.ctxs);
+            out.nontrivial(&src);
+            return;
+        }
         let n = r.range(1, 8);
         let mut w = String::new();
         for _ in 0..n {
@@ -592,7 +608,8 @@ pub fn phases(cfg: &Cfg) -> Vec<Box<dyn Phase>> {
     v.push(Box::new(TokenSurface {
         label: "all-operators+words(42)",
         alphabet: gen::alphabet_all(),
-        maxlen: if t { 4 } else { 3 } - cut,
+        // (83 tokens: length 4 would be 47 million sequences x 24 calls; the hostile token soup covers longer ones)
+        maxlen: 3 - cut,
         hook_every: 0,
         ctxs: probe_contexts(),
     }));
